@@ -22,8 +22,43 @@ def metadata(descriptors, layout):
     return mds
 
 
+REQ_ISSUER = {'idp1': env.SP, 'idp2': env.SP2, 'unknown': 'urn:verif:unknown-sp'}
+
+
+def replay_request(case):
+    """the receiving side of requests: an IdP whose metadata holds the two requesters"""
+    import c10
+    import xmlsec_model
+    scn = case['scn']
+    mds = [env.sp_metadata(entity_id=env.SP2, keys=(('kIdp2', 'signing'),))]
+    if scn['layout'] != 'absent':
+        mds.append(env.sp_metadata(entity_id=env.SP, keys=[(k, None if u == 'none' else u) for k, u in case['descriptors']]))
+    idp = spc.idp_for(metadata=mds, top_only_use_keys_in_metadata=scn['flag'],
+                      endpoints={'single_sign_on_service': [(c10.IDP_SSO['redirect'], env.BINDING_REDIRECT), (c10.IDP_SSO['post'], env.BINDING_POST)]})
+    emb = None if scn['embedded'] == 'none' else scn['embedded']
+    doc = c10.request_xml('authn', 'req1', c10.IDP_SSO['post'], env.ts(spc.now() - 5), sb.signature_template('req1', 'sha256', embed_cert=emb))
+    doc = doc.replace('<saml:Issuer>%s</saml:Issuer>' % env.SP, '<saml:Issuer>%s</saml:Issuer>' % REQ_ISSUER[scn['issuer']], 1)
+    doc = sb.sign(doc, sb.NS_SAMLP, 'AuthnRequest', 'req1', scn['signKey'])
+    log = []
+    xmlsec_model.SINK = log
+    obs = {'verdict': 'reject', 'exc': None, 'doc': doc}
+    try:
+        res = idp.parse_authn_request(sb.b64(doc), env.BINDING_POST)
+        if res is not None and getattr(res, 'message', None) is not None:
+            obs['verdict'] = 'accept'
+    except Exception as exc:
+        obs['exc'] = type(exc).__name__
+        obs['msg'] = str(exc)[:200]
+    finally:
+        xmlsec_model.SINK = None
+    obs['calls'] = [{'mode': c.get('mode'), 'out': c.get('out'), 'key': env.fingerprint_to_name(c.get('key'))} for c in log]
+    return obs
+
+
 def replay(case):
     scn = case['scn']
+    if scn['level'] == 'request':
+        return replay_request(case)
     sp = spc.sp_for(metadata=metadata(case['descriptors'], scn['layout']),
                     want_response_signed=scn['level'] == 'response', want_assertions_signed=scn['level'] == 'assertion',
                     want_assertions_or_response_signed=False, top_only_use_keys_in_metadata=scn['flag'],
@@ -80,8 +115,8 @@ def main():
     if nacc == 0 and not chk.violations:
         raise fw.Machinery('nothing accepted: templates broken')
     chk.cov['exhaustive'] = True
-    chk.cov['rule'] = ('all 1 680 scenarios of SPKeys.tla: 7 key-descriptor layouts of the issuer x claimed issuer x real signing key '
-                      '(4 RSA keys) x embedded certificate x only_use_keys_in_metadata x signature level; every one is decided '
+    chk.cov['rule'] = ('all 2 520 scenarios of SPKeys.tla: 7 key-descriptor layouts of the issuer x claimed issuer x real signing key '
+                      '(4 RSA keys) x embedded certificate x only_use_keys_in_metadata x signature level (response, assertion, or a signed request received by an IdP); every one is decided '
                       'by the contract except flag-off/embedded-key cases which may go either way')
     chk.assumptions = list(fw.TOOL_ASSUMPTIONS)
     # the same receiver over time: SPHistory.tla
